@@ -24,6 +24,7 @@ RULE += ("; round 6: string groups that read as words")
 RULE += ("; round 7: profile getters asked in shuffled order with repeats; 9-14 user groups")
 RULE += ("; round 8: the default window (omitted and explicit 5) on chains shorter than 5; an explicitly empty group list; a member named again in the other case")
 RULE += ("; round 9: an over-long window together with an empty group list")
+RULE += ("; round 10: over-long windows given as unsigned numpy integers")
 EXHAUSTIVE = {"quick": False, "thorough": False}
 EXHAUSTIVE_NOTE = {"quick": "all patterns of length <= 7 x all windows 1..N+3", "thorough": "all patterns of length <= 8 x all windows 1..N+3"}
 ASSUMPTIONS = [
